@@ -32,7 +32,8 @@ def rotation_effects(g):
 
 
 def is_total(t, weight):
-    """failure-on-overflow running sum of `weight`, starting at 0"""
+    """failure-on-overflow running sum of `weight`, starting at 0: every step adds the element's weight to the CARRIED sum (a step that
+    restarts from a constant is not a sum)"""
     for a in alts(t):
         a = core(a)
         if is_zero(a) or is_mu(a):
@@ -40,12 +41,19 @@ def is_total(t, weight):
         ab = checked('Add', a)
         if ab is None or core(ab[1]) != weight:
             return False
+        carried = False
         for b in alts(ab[0]):
             b = core(b)
-            if is_zero(b) or is_mu(b):
+            if is_zero(b):
+                continue
+            if is_mu(b):
+                carried = True
                 continue
             if not is_total(b, weight):
                 return False
+            carried = True
+        if not carried:
+            return False
     return True
 
 
@@ -109,6 +117,18 @@ def tagp(e):
 
 
 def bookkeeping(rep, g, N, effs):
+    """one rotation = one Epoch write with the writes / event that share a path with it; a body that reaches the rotation helper from
+    several (mutually exclusive) call sites has several instances, each checked on its own"""
+    eps = [e for e in effs if tagp(e) == 'Epoch']
+    if len(eps) <= 1:
+        return bookkeeping1(rep, g, N, effs, effs)
+    for ep in eps:
+        fwd = succ_reachable(g, [ep.node])
+        inst = [e for e in effs if e is ep or e.node in fwd or (tagp(e) != 'Epoch' and ep.node in succ_reachable(g, [e.node]))]
+        bookkeeping1(rep, g, N, inst, effs)
+
+
+def bookkeeping1(rep, g, N, effs, all_effs):
     h = ('keccak', ('xdr', N))
     by = {tagp(e): e for e in effs}
     for k in ROT_KEYS + ('event',):
@@ -145,7 +165,7 @@ def bookkeeping(rep, g, N, effs):
         pass
     # R4 all-or-nothing on success
     for k in ROT_KEYS + ('event',):
-        rep.check(g.success_needs([by[k].node]) if g.entry == 'rotate_signers' else True, 'C03.R4', '%s:success-needs:%s' % (g.entry, k),
+        rep.check(g.success_needs([e_.node for e_ in all_effs if tagp(e_) == k]) if g.entry == 'rotate_signers' else True, 'C03.R4', '%s:success-needs:%s' % (g.entry, k),
                   'every success exit is preceded by the %s write/event' % k, entry_id(g))
 
 
